@@ -550,7 +550,8 @@ class _Frame:
         if self.depth == 0:
             self.rec.returns.append(Ret("return", v, st.pc, self.loops, self.seq(), self.qualname, s.lineno))
         self.local_returns.append((st.pc, v))
-        self._loop_exit("return", st, s)
+        if self.depth == 0:
+            self._loop_exit("return", st, s)
         return None
 
     def s_Raise(self, s, st):
@@ -634,21 +635,28 @@ class _Frame:
             return ra
         return merge(ra, rb, test, base_pc)
 
-    def _assigned_names(self, stmts) -> List[str]:
+    def _assigned_names(self, stmts, env=None) -> List[str]:
+        """Names whose value may change in the statements: rebinding, or in-place mutation of a *local* object.
+        Mutating an object reached through a parameter does not change what the parameter name denotes."""
         names = []
+        indirect = []
         for st_ in stmts:
             for n in ast.walk(st_):
                 if isinstance(n, ast.Name) and isinstance(n.ctx, ast.Store):
                     names.append(n.id)
                 elif isinstance(n, ast.Call) and isinstance(n.func, ast.Attribute) and n.func.attr in MUTATORS \
                         and isinstance(n.func.value, ast.Name):
-                    names.append(n.func.value.id)
+                    indirect.append(n.func.value.id)
                 elif isinstance(n, (ast.Attribute, ast.Subscript)) and isinstance(n.ctx, ast.Store):
                     root = n
                     while isinstance(root, (ast.Attribute, ast.Subscript)):
                         root = root.value
                     if isinstance(root, ast.Name):
-                        names.append(root.id)
+                        indirect.append(root.id)
+        for n in indirect:
+            if env is not None and n in env and env[n].op in ("param", "attr", "sub", "elem", "global"):
+                continue
+            names.append(n)
         seen = []
         for n in names:
             if n not in seen:
@@ -661,7 +669,7 @@ class _Frame:
         lr.iter_path = getattr(self, "_pending_iter_path", None) if kind == "for" else None
         self._pending_iter_path = None
         self.rec.loops[lid] = lr
-        carried = self._assigned_names(body)
+        carried = self._assigned_names(body, st.env)
         init = {}
         heap_init = dict(st.heap)
         for n in carried:
@@ -672,6 +680,9 @@ class _Frame:
         self.loops = self.loops + (lid,)
         start = self.seq()
         body_st = st.copy()
+        # what earlier statements stored into objects may be changed by earlier iterations: forget it (conservative)
+        body_st.heap = {}
+        st.heap = {}
         if kind == "while" and test_node is not None:
             lr.test = self.eval(test_node, body_st)
             tv = truth(lr.test)
@@ -696,10 +707,7 @@ class _Frame:
             elif n in body_st.env:
                 vals.append(body_st.env[n])
             after.env[n] = T("widen", (n, lid, tuple(_dedupe(vals))))
-        if out is not None:
-            for k, v in out.heap.items():
-                if heap_init.get(k) != v:
-                    after.heap[k] = T("widen", ("heap", lid, tuple(_dedupe([heap_init.get(k, UNDEF), v]))))
+        after.heap = {}
         after.pc = st.pc
         if orelse:
             return self.exec_block(orelse, after)
@@ -737,7 +745,7 @@ class _Frame:
         if body_out is not None and s.orelse:
             body_out = self.exec_block(s.orelse, body_out)
         outs = [body_out] if body_out is not None else []
-        carried = self._assigned_names(s.body)
+        carried = self._assigned_names(s.body, before.env)
         for h in s.handlers:
             hs = before.copy()
             for n in carried:
@@ -1281,6 +1289,8 @@ class _Frame:
             if name in MUTATORS:
                 pth = self.path_of(node.func.value, st) if isinstance(node, ast.Call) and isinstance(node.func, ast.Attribute) else None
                 self.effect("mut-call", recv, name, args[-1] if args else None, args, st, node, path=pth)
+                if pth is not None and pth in st.heap:
+                    st.heap[pth] = T("mut", (st.heap[pth], name, args))      # the stored object is no longer what was stored
                 root = node.func.value if isinstance(node, ast.Call) and isinstance(node.func, ast.Attribute) else None
                 if isinstance(root, ast.Name) and root.id in st.env and recv.op not in ("param",):
                     st.env[root.id] = T("mut", (recv, name, args))
